@@ -114,6 +114,12 @@ def check(rep, tier, seed):
             rep.fail(kind="property-oracle", cls="marginalize:nonfinite", case="marg %s axis %d values %s" % (fmt(sh), a, vals), observed=o[:300], expected=str(wl)[:300],
                      detail="a marginal cell must be the IEEE sum of its entries: infinities and NaN are carried along, not dropped")
 
+    # the same spectra against the extended-value model (Model/Ext.v, theorems C04_ext_*), one axis and two axes at once
+    tokv = lambda v: "inf" if v == math.inf else "-inf" if v == -math.inf else "nan" if v != v else str(int(v))
+    ext_cases = ["marg %s %s %d" % (fmt(sh), ",".join(tokv(v) for v in vals), a) for sh, vals, a in spec]
+    ext_cases += ["marg %s %s %s" % (fmt(sh), ",".join(tokv(v) for v in vals), ax) for sh, vals, a in spec if len(sh) == 3 and a == 0 for ax in ("0,2", "2,1", "1,1", "0,3")]
+    compare_cases(rep, "marginalize-nonfinite-vs-model", ext_cases, classify=lambda c, m, i: "marginalize:nonfinite")
+
     # one at a time on the implementation: remove axes[0], renumber, continue
     chain_cases = []
     for sh, data, axes in meta:
